@@ -136,6 +136,16 @@ CHECKS.update({
         ref='3/C13'),
 })
 
+CHECKS.update({
+    'C18': dict(
+        technique='property-based testing of generated cache states and record arrival schedules in the simulator; oracle = availability intervals from the harness\' own injection log',
+        text=SIM + 'SRV/TXT/A/AAAA records absent, fresh, stale or expired-but-unpurged, plus arrivals on a grid around the lookup\'s query instants and its deadline; '
+             'return time bound, True => fields from records unexpired inside the window and >= 1 address, False => SRV and address never both available, '
+             'cache-first without transmission listing all unexpired addresses, QU-then-QM.',
+        note='no cache-flush bits; one SRV identity per instance; same-instant ordering by sequence number',
+        ref='3/C18'),
+})
+
 NOT_YET = {
 }
 
